@@ -95,6 +95,9 @@ class Env:
         self.listen_order = []
         self.probe_errors = []
         self.shared = {}
+        self.add_listeners_calls = []  # [component, id(sink), sorted keyword arguments] of every addListeners call
+        self.listen_args_given = {}   # waiter id -> the listen_args dict as the caller wrote it
+        self.la_written = {}
         self.shared_args = {}         # share key -> (the one container object, its content when the caller made it)
         self.api_exc = []             # [api, waiter id or component, exception class, callback kind] of calls that raised
         self.silent = []              # waiters whose invocation the harness cannot observe (callback None, sink without _all_dependencies_met)
@@ -249,6 +252,12 @@ class Env:
         elif falsy is not None and base is not list: d["__len__"] = lambda self_: 0
         if evs is not None:
             d["_eventMixin_events"] = set(self.evclass(e) for e in evs)
+            def addListeners(self_, sink, *a, **k):
+                kk = dict(k)
+                if a: kk["prefix"] = a[0]
+                env.add_listeners_calls.append([name, id(sink), kk])
+                return base.addListeners(self_, sink, *a, **k)
+            d["addListeners"] = addListeners
         if name in CORENAMED or not name.isidentifier():
             d["_core_name"] = name
             cls = type("Other", (base,), d)
@@ -434,8 +443,18 @@ class Env:
             arg = self.container(ct, [fresh(x) for x in ex], s.get("share"))
             before = self.snap(arg)
             kw = {}
-            if s.get("listen_args") == "all": kw["listen_args"] = {None: {"priority": 3}, (sorted(want) + ["x"])[0]: {"weak": False}}
-            elif s.get("listen_args") == "missing": kw["listen_args"] = {"nobody": {"priority": 3}}
+            la, first = s.get("listen_args"), (sorted(want) + ["x"])[0]
+            if la == "all": kw["listen_args"] = {None: {"priority": 3}, first: {"weak": False}}
+            elif la == "missing": kw["listen_args"] = {"nobody": {"priority": 3}}
+            elif la == "per": kw["listen_args"] = {c: {"priority": 10 + i} for i, c in enumerate(sorted(want))}
+            elif la == "override": kw["listen_args"] = {None: {"priority": 3, "weak": False}, first: {"priority": 9}}
+            elif la == "none-only": kw["listen_args"] = {None: {"priority": 4}}
+            if "listen_args" in kw:
+                if s.get("la_share") is not None:          # ONE dict handed to several listen_to_dependencies calls
+                    kw["listen_args"] = self.shared_args.setdefault("la:" + s["la_share"], (kw["listen_args"], None))[0]
+                if id(kw["listen_args"]) not in self.la_written:
+                    self.la_written[id(kw["listen_args"])] = (kw["listen_args"], copy.deepcopy(kw["listen_args"]))
+                self.listen_args_given[wid] = [id(sink), self.la_written[id(kw["listen_args"])][1]]
             try:
                 core.listen_to_dependencies(sink, arg, attrs=s.get("set_attrs", True), short_attrs=s.get("short_attrs", False), **kw)
             finally:
@@ -550,7 +569,18 @@ class Env:
             except Exception:
                 pending = internal_out = None
             for key, (arg, before) in sorted(self.shared_args.items()):
-                self.arg_unchanged("a later call or a fired waiter", arg, before)
+                if not key.startswith("la:"): self.arg_unchanged("a later call or a fired waiter", arg, before)
+            la_changed = ["%r became %r" % (w, d) for d, w in self.la_written.values() if d != w]
+            la_wrong = []
+            for wid, (sid, la) in sorted(self.listen_args_given.items()):
+                for c, sid2, got in self.add_listeners_calls:
+                    if sid2 != sid: continue
+                    want_kw = dict(la.get(c, {}))                     # documented: listen_args[component] are extra arguments of
+                    for k2, v2 in la.get(None, {}).items():           # addListeners(); the entry None is for every component that
+                        want_kw.setdefault(k2, v2)                    # does not say otherwise
+                    want_kw["prefix"] = c
+                    if got != want_kw:
+                        la_wrong.append("sink of waiter %d: %s.addListeners called with %r, listen_args %r ask for %r" % (wid, c, got, la, want_kw))
             if self.twin is not None:
                 for t in self._twin_check(): self.violations.append(["isolation:two-cores-share-state", t])
         finally:
@@ -558,7 +588,7 @@ class Env:
         return {"log": self.log, "marks": marks, "after": after, "op_exc": op_exc, "decls": self.decls,
                 "comps": list(self.core.components), "pending": pending, "outstanding": internal_out,
                 "hits": sorted(self.hits), "sink_attrs": sink_attrs, "listen_order": self.listen_order, "silent": self.silent, "runaway": self.runaway, "api_exc": self.api_exc, "probe_errors": self.probe_errors,
-                "violations": self.violations}
+                "violations": self.violations, "la_changed": la_changed, "la_wrong": la_wrong}
 
 
 def segments(log, marks):
@@ -659,6 +689,18 @@ class C08(Check):
         self.ncases = 0
         self.total_tw = 0
         self.runaways = 0
+        # Candidate repair fixes/C08-K1_listen_args_not_modified.diff (listen_to_dependencies works on a copy of listen_args).  The oracle
+        # clauses about the caller's listen_args dict (unchanged afterwards; one dict handed to several calls) are switched on when the
+        # tree under test behaves that way (probe: one call on a throw-away core), or when the finding is in known_findings.json.
+        self.la_clause = False
+        probe = mkcase([LISTEN(0)], sinks=[{"attrs": [], "explicit": ["a"], "ctype": "list", "met": None, "listen_args": "none-only"}])
+        try:
+            with contextlib.redirect_stdout(self.banner_sink):
+                self.la_repaired = not Env(self, probe).run()["la_changed"]
+        except Exception:
+            self.la_repaired = False
+        self.la_listed = common.Findings().match("C08", "aliasing:caller-listen-args-modified") is not None
+        self.la_clause = self.la_repaired or self.la_listed
         self._unreadable = set()      # cases in which the core's private representation could not be read (compared without it)
 
     def translate(self):
@@ -685,7 +727,9 @@ class C08(Check):
         return []
 
     def extra_evidence(self):
-        return {"goUp_call_sites": getattr(self, "goup_sites", None)}
+        return {"goUp_call_sites": getattr(self, "goup_sites", None),
+                "variant_notes": {"listen_args_copied (fixes/C08-K1)": self.la_repaired, "finding_listed": self.la_listed,
+                                  "caller_listen_args_clauses_active": self.la_clause}}
 
     # ------------------------------------------------------------------ generators
     def _exhaustive_rw(self, nr, nw, perm_regs=False):
@@ -785,6 +829,9 @@ class C08(Check):
         {"attrs": ["_handle_a_x_y", "_handle_a_EvA"], "explicit": ["a_x"], "ctype": "list", "met": 0},
         {"attrs": ["_handle_a_EvA", "_handle_b_EvB"], "explicit": [], "ctype": "none", "met": 0, "listen_args": "all"},
         {"attrs": ["_handle_a_EvA"], "explicit": [], "ctype": "none", "met": 0, "listen_args": "missing"},
+        {"attrs": ["_handle_a_EvA", "_handle_b_EvB"], "explicit": ["a_b"], "ctype": "list", "met": 0, "listen_args": "per"},
+        {"attrs": ["_handle_a_EvA", "_handle_b_EvB"], "explicit": [], "ctype": "none", "met": 1, "listen_args": "override"},
+        {"attrs": ["_handle_b_EvB", "_handle_a_EvB"], "explicit": ["a_b"], "ctype": "set", "met": 0, "listen_args": "none-only"},
         {"attrs": ["_handle_a_EvA"], "noncallable": ["_handle_b_EvB", "_handle_a_EvB"], "explicit": [], "ctype": "none", "met": 0},
         {"attrs": [], "noncallable": ["_handle_a_EvA", "_handle_p_x", "_handle_b_EvB", "_handle_a_b_EvA"], "explicit": [], "ctype": "none", "met": 1},
     ]
@@ -1004,6 +1051,20 @@ class C08(Check):
                 for g in range(0, len(variant) + 1, 1 if variant is acts else 2):
                     yield mkcase(variant[:g] + [GOUP] + variant[g:] + [DECL(["z"], 0), REG("z")], bodies=[[]])
 
+    def _listen_args_cases(self):
+        """the extra arguments for addListeners (listen_args, per component and for all via None) reach addListeners as written,
+        for every sink and every order; one listen_args dict handed to two calls"""
+        ev = {"a": ["EvA", "EvB"], "b": ["EvB"], "a_b": ["EvA"]}
+        regs = [REG("a"), REG("b"), REG("a_b")]
+        for k in (8, 9, 12, 13, 14):
+            for pos in range(len(regs) + 1):
+                yield mkcase(regs[:pos] + [LISTEN(k)] + regs[pos:], bodies=[[], [REG("b")], [RAISE]], sinks=self.SINKS, events=ev)
+        for la in ("none-only", "all", "override"):
+            sinks = [{"attrs": ["_handle_a_EvA"], "explicit": [], "ctype": "none", "met": 0, "listen_args": la, "la_share": "k"},
+                     {"attrs": ["_handle_b_EvB", "_handle_a_EvB"], "explicit": [], "ctype": "none", "met": 0, "listen_args": la, "la_share": "k"}]
+            for ops in ([LISTEN(0), LISTEN(1)] + regs, [LISTEN(1), LISTEN(0)] + regs, regs + [LISTEN(0), LISTEN(1)], [LISTEN(0)] + regs + [LISTEN(1)]):
+                yield mkcase(ops, bodies=[[]], sinks=sinks, events=ev)
+
     def _twin_cases(self):
         """item 1: two cores in one process share nothing"""
         picks = list(self._deferral_cases())[::40] + list(self._quit_cases())[::3] + list(self._misc_cases())[4:] + \
@@ -1027,7 +1088,7 @@ class C08(Check):
         cases += list(self._falsy_cases())
         cases += list(self._shared_callable_cases())
         for fam in (self._name_cases, self._probe_cases, self._convention_cases, self._one_pass_cases, self._registered_listener_cases,
-                    self._handler_shape_cases, self._twin_cases, self._shared_argument_cases, self._three_deferral_cases):
+                    self._handler_shape_cases, self._twin_cases, self._shared_argument_cases, self._three_deferral_cases, self._listen_args_cases):
             cases += list(fam())
         return cases
 
@@ -1053,6 +1114,7 @@ class C08(Check):
             sinks.append({"attrs": sorted(set(at)), "noncallable": nc, "explicit": ex, "ctype": ct, "met": None, "set_attrs": rng.random() < 0.8,
                           "short_attrs": rng.random() < 0.2})
             k = len(sinks) - 1
+            if rng.random() < 0.25: sinks[k]["listen_args"] = rng.choice(["all", "per", "override", "none-only", "missing"])
             if rng.random() < 0.7:
                 sinks[k]["met"] = new_body()
             return k
@@ -1312,6 +1374,12 @@ class C08(Check):
                 end = marks[op_of(p)] if op_of(p) < len(marks) else len(log)
                 if not (dn and p < dn[0] < end): return "lifecycle:Down-missing-after-GoingDown | GoingDownEvent not followed by DownEvent in the same operation"
         # ---- wiring of listen_to_dependencies
+        for t in obs["la_wrong"]:
+            if self.la_clause or not any(s.get("la_share") is not None for s in case["sinks"]):
+                return "wiring:listen-args-not-handed-through | " + t
+        for t in obs["la_changed"]:
+            if self.la_clause:
+                return "aliasing:caller-listen-args-modified | listen_to_dependencies changed its caller's listen_args: " + t
         for name, ev, exc in obs["probe_errors"]:
             return "wiring:listener-raised:%s | raising %s on component %s made a bound listener raise %s" % (exc, ev, name, exc)
         final = set(obs["comps"])
